@@ -656,8 +656,8 @@ func (tr *Tr) implementsCond(x string, iface types.Type) string {
 	for _, id := range ids {
 		t := tr.C.typeByID[id]
 		k := fmt.Sprintf("%s@%d", fn, id)
-		if !tr.C.declared[k] {
-			tr.C.declared[k] = true
+		if !tr.addrSeen[k] {
+			tr.addrSeen[k] = true
 			tr.raw(fmt.Sprintf("(assert (= (%s %d) %v))", fn, id, types.Implements(t, it)))
 		}
 	}
@@ -833,7 +833,7 @@ func (tr *Tr) frameCheck(fr *frame, env *specEnv, pos token.Pos) {
 			continue
 		}
 		r := tr.declareConst("Int", "frame_r")
-		conds := []string{app("<", r, fr.entryA)}
+		conds := []string{tr.preExisting(r, fr.entryA)}
 		var goal string
 		if tg != nil && len(tg.inner) > 0 && len(tg.refs) == 0 {
 			// assigned: particular inner indices of particular objects (map entries / slice elements)
